@@ -164,6 +164,9 @@ TWINS_STACK = {
     "may_be_stack": ["kani:vk_may_be_stack_rule"],
     "stack_has_pointer_to_mapping": ["kani:vk_has_ptr_len8", "kani:vk_has_ptr_len17", "kani:vk_has_ptr_len7", "kani:vk_has_ptr_len0"],
     "find_mapping_no_bias": ["kani:vk_find_mapping_no_bias_2"],
+    # thread_list_stream::write (unit thread_list): the live-target checks of the same sentences
+    "write": ["native:c06_limit::crash_context_thread_is_never_shortened", "native:c07_ip_window::ip_window_is_clipped_to_the_mapping_that_contains_ip",
+              "native:c05_blamed::crash_context_for_a_secondary_thread"],
 }
 TWINS_DIR = {
     "new": ["native:c09_dest::bprime_destination_equals_image_for_every_short_history"],
